@@ -26,10 +26,270 @@ import stat
 import subprocess
 import sys
 
-from . import c33_tables, tables
-from .common import REPO, SRC, Check, Err, Raw, cN, clist, cpair, cstr, cval, impl_call
+from . import tables
+from .common import REPO, SRC, Check, Err, cN, cbool, clist, cpair, cstr, impl_call
 from .tables import TableError
 
+# ================================================================== source-derived tables
+# Source-derived tables of C33 (DESIGN §3.1), fail closed.
+# 
+#   * ebuild/eapi.py: per-EAPI option gates the install helpers consult (dodoc_allow_recursive,
+#     doman_language_detect, doman_language_override, dosym_relative, has_desttree,
+#     unpack_case_insensitive) and the per-EAPI archive extension sets, resolved by `ast` through
+#     the `_combine_dicts(eapiN.options, {...})` / `eapiN.archive_exts | frozenset([...])` chain.
+#   * data/lib/pkgcore/ebd/helpers/0/src_install/<helper>: the OPTIONS=( ... ) templates of the
+#     bash wrappers (where --dest / --insoptions / --diroptions come from) as token lists.
+#   * helpers/<N>/src_install/<helper>: which helpers are replaced by the `banned` script from
+#     which EAPI on.
+GATES = ("dodoc_allow_recursive", "doman_language_detect", "doman_language_override",
+         "dosym_relative", "has_desttree", "unpack_case_insensitive")
+HELPERS_DIR = REPO / "data" / "lib" / "pkgcore" / "ebd" / "helpers"
+WRAPPED = ("doins", "dodoc", "doexe", "dobin", "dosbin", "dolib", "dolib.so", "dolib.a", "doman", "domo",
+           "dohtml", "doinfo", "dodir", "keepdir", "dosym", "dohard")
+
+DOLIB_BLOCK = ('if [[ ${HELPER_NAME} == "dolib.so" ]]; then\n\tLIBOPTIONS="-m0755"\n'
+               'elif [[ ${HELPER_NAME} == "dolib.a" ]]; then\n\tLIBOPTIONS="-m0644"\nfi\n')
+DOINS_BLOCK = ('if [[ -n ${PKGCORE_INSDESTTREE} && -z ${PKGCORE_INSDESTTREE%${ED}*} ]]; then\n'
+               '\t__helper_exit 2 "do not give \\${D} or \\${ED} as part of the path arguments to doins"\nfi\n')
+
+
+# ------------------------------------------------------------------ eapi.py
+def _const_bool(node, what):
+    if isinstance(node, ast.Constant) and isinstance(node.value, bool):
+        return node.value
+    raise TableError(f"{what}: expected a True/False constant")
+
+
+def _dict_gates(node, what, require_all):
+    if not isinstance(node, ast.Dict):
+        raise TableError(f"{what}: expected a dict literal")
+    out = {}
+    for k, v in zip(node.keys, node.values):
+        if not (isinstance(k, ast.Constant) and isinstance(k.value, str)):
+            raise TableError(f"{what}: non-literal key")
+        if k.value in GATES:
+            if k.value in out:
+                raise TableError(f"{what}: duplicate key {k.value}")
+            out[k.value] = _const_bool(v, f"{what}[{k.value}]")
+    if require_all and set(out) != set(GATES):
+        raise TableError(f"{what}: missing gates {sorted(set(GATES) - set(out))}")
+    return out
+
+
+def _str_seq(node, what):
+    v = tables.literal(node)
+    if not (isinstance(v, (tuple, list, frozenset, set)) and all(isinstance(x, str) for x in v)):
+        raise TableError(f"{what}: expected a sequence of strings")
+    return set(v)
+
+
+def eapi_rows():
+    tree = tables.parse("ebuild/eapi.py")
+    # the defaults: eapi_optionals = ImmutableDict({...})
+    call = tables.find_assign(tree, "eapi_optionals")
+    if not (isinstance(call, ast.Call) and isinstance(call.func, ast.Name) and call.func.id == "ImmutableDict"
+            and len(call.args) == 1):
+        raise TableError("eapi_optionals: expected ImmutableDict({...})")
+    defaults = _dict_gates(call.args[0], "eapi_optionals", True)
+    common_exts = _str_seq(tables.find_assign(tree, "common_archive_exts"), "common_archive_exts")
+    # _combine_dicts must be the plain later-wins merge
+    cd = tables.find_func(tree, "_combine_dicts")
+    want = ast.parse("def _combine_dicts(*mappings):\n    return {k: v for d in mappings for k, v in d.items()}").body[0]
+    if ast.dump(cd) != ast.dump(want):
+        raise TableError("_combine_dicts is no longer the later-wins merge")
+
+    rows = {}   # var name -> dict(magic, parent, gates, exts)
+
+    def exts_of(node, what):
+        if isinstance(node, ast.Name) and node.id == "common_archive_exts":
+            return set(common_exts)
+        if (isinstance(node, ast.Attribute) and node.attr == "archive_exts" and isinstance(node.value, ast.Name)
+                and node.value.id in rows):
+            return set(rows[node.value.id]["exts"])
+        if isinstance(node, ast.BinOp) and isinstance(node.op, (ast.BitOr, ast.Sub)):
+            left = exts_of(node.left, what)
+            right = _str_seq(node.right, what)
+            return left | right if isinstance(node.op, ast.BitOr) else left - right
+        raise TableError(f"{what}: unrecognised archive_exts expression")
+
+    def gates_of(node, what):
+        if isinstance(node, ast.Name) and node.id == "eapi_optionals":
+            return dict(defaults)
+        if (isinstance(node, ast.Call) and isinstance(node.func, ast.Name) and node.func.id == "_combine_dicts"
+                and len(node.args) == 2 and not node.keywords):
+            base, upd = node.args
+            if not (isinstance(base, ast.Attribute) and base.attr == "options" and isinstance(base.value, ast.Name)
+                    and base.value.id in rows):
+                raise TableError(f"{what}: unrecognised base of _combine_dicts")
+            g = dict(rows[base.value.id]["gates"])
+            g.update(_dict_gates(upd, what, False))
+            return g
+        raise TableError(f"{what}: unrecognised optionals expression")
+
+    for n in tree.body:
+        if not (isinstance(n, ast.Assign) and len(n.targets) == 1 and isinstance(n.targets[0], ast.Name)
+                and isinstance(n.value, ast.Call) and isinstance(n.value.func, ast.Attribute)
+                and n.value.func.attr == "register" and isinstance(n.value.func.value, ast.Name)
+                and n.value.func.value.id == "EAPI"):
+            continue
+        var = n.targets[0].id
+        kw = {k.arg: k.value for k in n.value.keywords}
+        if n.value.args or not {"magic", "parent", "archive_exts", "optionals"} <= set(kw):
+            raise TableError(f"{var}: unexpected EAPI.register() call shape")
+        magic = tables.literal(kw["magic"])
+        if not (isinstance(magic, str) and magic.isdigit()):
+            continue   # only the numbered PMS EAPIs are tabulated
+        p = kw["parent"]
+        if isinstance(p, ast.Constant) and p.value is None:
+            parent = None
+        elif isinstance(p, ast.Name) and p.id in rows:
+            parent = rows[p.id]["magic"]
+        else:
+            raise TableError(f"{var}: unrecognised parent")
+        rows[var] = {"magic": magic, "parent": parent, "gates": gates_of(kw["optionals"], var + ".optionals"),
+                     "exts": exts_of(kw["archive_exts"], var + ".archive_exts")}
+    if not rows:
+        raise TableError("no EAPI.register() calls found")
+    return list(rows.values())
+
+
+# ------------------------------------------------------------------ bash wrappers
+def _tokens(text, what):
+    """template text -> tokens; accepts literal text, ${NAME}, ${NAME:-default}, $(__get_libdir lib)."""
+    out, i = [], 0
+    while i < len(text):
+        m = re.compile(r"\$\{([A-Z_]+)\}").match(text, i)
+        if m:
+            out.append(("var", m.group(1)))
+            i = m.end()
+            continue
+        m = re.compile(r"\$\{([A-Z_]+):-([A-Za-z0-9_./-]*)\}").match(text, i)
+        if m:
+            out.append(("vardef", m.group(1), m.group(2)))
+            i = m.end()
+            continue
+        m = re.compile(r"\$\(__get_libdir lib\)").match(text, i)
+        if m:
+            out.append(("libdir",))
+            i = m.end()
+            continue
+        m = re.compile(r"[A-Za-z0-9_./-]+").match(text, i)
+        if m:
+            out.append(("lit", m.group(0)))
+            i = m.end()
+            continue
+        raise TableError(f"{what}: unrecognised template text at {text[i:i + 20]!r}")
+    return out
+
+
+def _options_array(body, what):
+    """the elements of OPTIONS=( ... ) -> [(option name, tokens)]"""
+    elems = re.findall(r'"((?:[^"\\]|\\.)*)"', body)
+    if re.sub(r'"((?:[^"\\]|\\.)*)"', "", body).strip():
+        raise TableError(f"{what}: unquoted material in OPTIONS")
+    out = []
+    for e in elems:
+        m = re.fullmatch(r'--(dest|insoptions|diroptions)=(?:\\"(.*)\\"|([^"\\]*))', e)
+        if not m:
+            raise TableError(f"{what}: unrecognised OPTIONS element {e!r}")
+        out.append((m.group(1), _tokens(m.group(2) if m.group(2) is not None else m.group(3), what)))
+    return out
+
+
+def wrapper(name):
+    """-> list of alternatives (guard variable or None, [(option, tokens)]) of helpers/0/src_install/<name>"""
+    p = HELPERS_DIR / "0" / "src_install" / name
+    try:
+        text = p.read_text()
+    except OSError as e:
+        raise TableError(f"cannot read {p}: {e}") from e
+    what = f"helpers/0/src_install/{name}"
+    if not text.startswith("#!/usr/bin/env pkgcore-ipc-helper\n"):
+        raise TableError(f"{what}: not an ipc helper wrapper")
+    rest = text.split("\n", 1)[1]
+    if name.startswith("dolib"):
+        if DOLIB_BLOCK not in rest:
+            raise TableError(f"{what}: LIBOPTIONS block changed")
+        rest = rest.replace(DOLIB_BLOCK, "")
+    if name == "doins":
+        if DOINS_BLOCK not in rest:
+            raise TableError(f"{what}: ED check block changed")
+        rest = rest.replace(DOINS_BLOCK, "")
+    rest = rest.strip()
+    if not rest:
+        return [(None, [])]
+    m = re.fullmatch(r"OPTIONS=\((.*)\)", rest, flags=re.S)
+    if m:
+        return [(None, _options_array(m.group(1), what))]
+    m = re.fullmatch(r"if \$\{([A-Z_]+)\}; then\n\tOPTIONS=\((.*)\)\nelse\n\tOPTIONS=\((.*)\)\nfi", rest, flags=re.S)
+    if m:
+        return [(m.group(1), _options_array(m.group(2), what)), (None, _options_array(m.group(3), what))]
+    raise TableError(f"{what}: unrecognised wrapper body")
+
+
+def banned():
+    """[(helper, eapi number)] for every helpers/<N>/src_install/<helper> that is the `banned` script"""
+    ref = (HELPERS_DIR / "internals" / "banned").read_text()
+    out = []
+    for d in sorted(HELPERS_DIR.iterdir()):
+        if not d.name.isdigit() or not (d / "src_install").is_dir():
+            continue
+        for f in sorted((d / "src_install").iterdir()):
+            if f.name in WRAPPED and f.read_text() == ref:
+                out.append((f.name, int(d.name)))
+    return out
+
+
+# ------------------------------------------------------------------ rendering
+def _ctok(t):
+    if t[0] == "lit":
+        return f"TLit {cstr(t[1])}"
+    if t[0] == "var":
+        return f"TVar {cstr(t[1])}"
+    if t[0] == "vardef":
+        return f"TVarDefault {cstr(t[1])} {cstr(t[2])}"
+    return "TLibdir"
+
+
+def _gen_tables_impl():
+    rows = eapi_rows()
+    txt = tables.header("ebuild/eapi.py (option gates, archive_exts) and data/lib/pkgcore/ebd/helpers/*/src_install/*")
+    txt += """
+Inductive tok := TLit (s : str) | TVar (name : str) | TVarDefault (name : str) (d : str) | TLibdir.
+Record eapi_row := { g_parent : option str; g_dodoc_r : bool; g_doman_detect : bool; g_doman_override : bool;
+                     g_dosym_rel : bool; g_has_desttree : bool; g_case_insens : bool; g_archive_exts : list str }.
+"""
+    ents = []
+    for r in rows:
+        g = r["gates"]
+        ents.append("(%s, {| g_parent := %s; g_dodoc_r := %s; g_doman_detect := %s; g_doman_override := %s;\n"
+                    "      g_dosym_rel := %s; g_has_desttree := %s; g_case_insens := %s;\n      g_archive_exts := %s |})"
+                    % (cstr(r["magic"]), "None" if r["parent"] is None else f"Some {cstr(r['parent'])}",
+                       cbool(g["dodoc_allow_recursive"]), cbool(g["doman_language_detect"]),
+                       cbool(g["doman_language_override"]), cbool(g["dosym_relative"]), cbool(g["has_desttree"]),
+                       cbool(g["unpack_case_insensitive"]),
+                       clist([cstr(x) for x in sorted(r["exts"])], "str")))
+    txt += "\n(* eapi.py: EAPI.register(...) calls, in source order *)\n"
+    txt += "Definition eapi_table : list (str * eapi_row) :=\n  %s.\n" % clist(ents, "str * eapi_row").replace("; (", ";\n   (")
+    went = []
+    for name in WRAPPED:
+        alts = wrapper(name)
+        went.append("(%s, %s)" % (cstr(name), clist(
+            ["(%s, %s)" % ("None" if g is None else f"Some {cstr(g)}",
+                           clist(["(%s, %s)" % (cstr(o), clist([_ctok(t) for t in toks], "tok")) for o, toks in opts],
+                                 "str * list tok"))
+             for g, opts in alts], "option str * list (str * list tok)")))
+    txt += "\n(* the OPTIONS=( ... ) of each bash wrapper: alternatives (guard variable, [(option, template)]) *)\n"
+    txt += "Definition wrapper_table : list (str * list (option str * list (str * list tok))) :=\n  %s.\n" % clist(
+        went, "str * list (option str * list (str * list tok))").replace("; (", ";\n   (")
+    txt += "\n(* helpers/<N>/src_install/<helper> that are the `banned` script *)\n"
+    txt += "Definition banned_table : list (str * N) :=\n  %s.\n" % clist(
+        ["(%s, %d%%N)" % (cstr(h), n) for h, n in banned()], "str * N")
+    return {"Tables_C33.v": txt}
+
+c33_tables = sys.modules[__name__]
+
+# ================================================================== the check
 IMPORTS = ("From Coq Require Import List NArith ZArith Bool.\n"
            "From Verif Require Import Base.Val C33.Path gen.Tables_C33 C33.Model_C33 C33.Spec_C33.")
 ANCHORS = ["ebuild/ebd_ipc.py::IpcCommand", "ebuild/ebd_ipc.py::_InstallWrapper", "ebuild/ebd_ipc.py::Doins",
@@ -46,7 +306,7 @@ CLASS_OF = {"doins": "Doins", "dodoc": "Dodoc", "dohtml": "Dohtml", "doinfo": "D
 
 
 def gen_tables():
-    return c33_tables.gen_tables()
+    return _gen_tables_impl()
 
 
 # ------------------------------------------------------------------ fakes
@@ -765,6 +1025,8 @@ def main(chk: Check):
     ok = chk.build(["C33/Prop_C33.vo"])
     if ok:
         chk.check_assumptions("C33/Prop_C33.v")
+    # a broken theorem does not stop the search for a concrete failing input: model and spec still evaluate
+    can_eval = ok or chk.build(["C33/Spec_C33.vo"], what="model and spec")
     chk.lint(["C33"])
     chk.check_fingerprint(ANCHORS)
     rng = chk.rng
@@ -987,7 +1249,7 @@ def main(chk: Check):
 
     lap("probe")
     # ---- evaluate model and spec inside Coq
-    if not ok:
+    if not can_eval:
         return
     import concurrent.futures as cf
     ex = cf.ThreadPoolExecutor(max_workers=5)
